@@ -18,6 +18,7 @@ from . import ticker
 from .common import send, recv
 from .farm import make_farm
 
+_ALRM = {signal.SIGALRM}
 FS_EVENTS = ('open', 'os.mkdir', 'os.remove', 'os.rename', 'os.rmdir', 'os.listdir', 'os.scandir',
              'os.system', 'subprocess.Popen', 'os.truncate', 'os.utime', 'shutil.rmtree', 'os.symlink')
 
@@ -45,8 +46,12 @@ class FakeComm:
     def _call(self, op, root, payload):
         ticker.CLOCK.on_mpi()
         self.ncoll += 1
-        send(self.wfd, ('mpi', op, root, payload))
-        return recv(self.rfd)
+        signal.pthread_sigmask(signal.SIG_BLOCK, _ALRM)      # a real SIGALRM must not tear the seam protocol
+        try:
+            send(self.wfd, ('mpi', op, root, payload))
+            return recv(self.rfd)
+        finally:
+            signal.pthread_sigmask(signal.SIG_UNBLOCK, _ALRM)
 
     @staticmethod
     def _dumps(obj):
@@ -81,8 +86,12 @@ class FakeComm:
     barrier = Barrier
 
     def fs(self, what):
-        send(self.wfd, ('fs',) + tuple(what))
-        recv(self.rfd)
+        signal.pthread_sigmask(signal.SIG_BLOCK, _ALRM)
+        try:
+            send(self.wfd, ('fs',) + tuple(what))
+            recv(self.rfd)
+        finally:
+            signal.pthread_sigmask(signal.SIG_UNBLOCK, _ALRM)
 
 
 def _install_fake_mpi(comm):
